@@ -137,7 +137,10 @@ def calling_uri(ctx):
         ctx.check(bool(cs) and [src(a) for a in cs[0].args] == ["context", "uri", "calling_uri"], "thread:" + q, db.where(fn), "%s calls the gateway as %s" % (q, src(cs[0]) if cs else None), "_lookup_template(context, uri, calling_uri)")
     tn = db.func("runtime.TemplateNamespace.__init__")
     a = [s for s in walk_func(tn) if isinstance(s, ast.Assign) and dotted(s.targets[0]) == "self._templateuri"]
-    ctx.check(len(a) >= 2 and all("module._template_uri" in src(s.value) for s in a), "templatens._templateuri", db.where(tn), "TemplateNamespace._templateuri is not the referenced template's own URI", "_templateuri = template.module._template_uri")
+    # ... on every way through the constructor (whether the template was given or looked up)
+    from .common import branch_paths
+    every_path = all(any(isinstance(s_, ast.Assign) and dotted(s_.targets[0]) == "self._templateuri" and "module._template_uri" in src(s_.value) for s_ in p_.stmts) for p_ in branch_paths(tn.body) if not isinstance(p_.exit, ast.Raise))
+    ctx.check(len(a) >= 1 and all("module._template_uri" in src(s.value) for s in a) and every_path, "templatens._templateuri", db.where(tn), "TemplateNamespace._templateuri is not the referenced template's own URI", "_templateuri = template.module._template_uri")
 
 
 @rule("C07.include-isolation", min_instances=5)
